@@ -176,6 +176,7 @@ func replaySpecial(path string) (int, bool) {
 		Key    string `json:"key"`
 		Replay struct {
 			StoreHistory []string        `json:"store_history"`
+			BigRemove    int             `json:"large_prefix_remove"`
 			Mode         string          `json:"mode"`
 			Binary       string          `json:"binary"`
 			Inner        json.RawMessage `json:"replay"`
@@ -186,6 +187,15 @@ func replaySpecial(path string) (int, bool) {
 		return 2, true
 	}
 	switch {
+	case f.Replay.BigRemove > 0:
+		r2 := report.New("C15", "model_checking")
+		runBigRemove(r2)
+		if r2.Count() > 0 {
+			fmt.Printf("replayed: large prefix removal scenario reports %d violation(s)\nVIOLATION property=C15 replay=%s\n", r2.Count(), path)
+			return 1, true
+		}
+		fmt.Println("replay: violation not reproduced")
+		return 0, true
 	case len(f.Replay.StoreHistory) > 0:
 		u := mkUniverse(true)
 		var hist []int
